@@ -3,6 +3,7 @@ type-directed value canonicalisation, implementation runners."""
 from __future__ import annotations
 
 import io
+import os
 import math
 import random
 import re
@@ -393,25 +394,46 @@ class Hang(BaseException):
 
 
 class time_limit:
+    """Watchdog on the CPU time of this process (not wall-clock time: a loop that does not terminate burns CPU, while a machine busy with
+    other work - several checks and coqc side by side - must not turn a 2 ms parse into a "hang").  The cyclic garbage collector is switched
+    off inside the guarded region: a full collection of the harness's own heap (tens of thousands of cases and their Coq terms) takes
+    seconds and would otherwise be charged to whatever library call happens to be running when it starts.  A signal that arrives when the
+    guarded call has already returned is ignored."""
+
     def __init__(self, seconds: float):
         self.seconds = seconds
+        self.done = False
 
     def __enter__(self):
+        import gc
         import signal
+        import time as _t
 
         def handler(signum, frame):
+            if self.done:
+                return
+            if os.environ.get("VF_HANG_TRACE"):
+                import traceback
+                with open(os.environ["VF_HANG_TRACE"], "a") as fh:
+                    fh.write(f"--- hang after {self.seconds}s cpu; wall {_t.time() - self.t0:.3f}s; process_time {_t.process_time() - self.c0:.3f}s\n")
+                    fh.write("".join(traceback.format_stack(frame)[-12:]))
             raise Hang(f"no result after {self.seconds}s")
 
-        # CPU time of this process, not wall-clock time: a loop that does not terminate burns CPU, while a machine busy with other work
-        # (several checks and coqc running side by side) must not turn a 2 ms parse into a "hang"
+        self.t0, self.c0 = _t.time(), _t.process_time()
+        self.gc_was_on = gc.isenabled()
+        gc.disable()
         self.old = signal.signal(signal.SIGVTALRM, handler)
         signal.setitimer(signal.ITIMER_VIRTUAL, self.seconds, 0.5)
 
     def __exit__(self, *a):
+        import gc
         import signal
 
+        self.done = True
         signal.setitimer(signal.ITIMER_VIRTUAL, 0)
         signal.signal(signal.SIGVTALRM, self.old)
+        if self.gc_was_on:
+            gc.enable()
         return False
 
 
